@@ -298,7 +298,7 @@ def gen_oof():
              expect=dict(flows=flows, margin=True, probes=1, page_w=240, page_h=160, conserve=True, line_height=12, margin_top=10, margin_bottom=10))
 
     # 14: footnotes that do not fit on the page of their call and are reported to the next page, with probes
-    css = page_css(240, 140, 10) + BASE + ".fn { float: footnote; font-size: 10px }\n::footnote-call { content: \"\" }\n::footnote-marker { content: \"\" }\n" + PROBE_CSS
+    css = page_css(240, 140, 10) + "@page :first { margin-top: 22px }\n" + BASE + ".fn { float: footnote; font-size: 10px }\n::footnote-call { content: \"\" }\n::footnote-marker { content: \"\" }\n" + PROBE_CSS
     main, body, flows = [], [], {}
     wi = 1
     for pi in range(10):
@@ -310,7 +310,12 @@ def gen_oof():
             fn = ' <span class=fn>%s</span>' % " ".join(fw)
         body.append("<p>%s%s %s</p>" % (" ".join(ws[:9]), fn, " ".join(ws[9:]) + ((' ' + probe()) if pi in (0, 3, 5, 8) else "")))
     flows["main"] = main
-    scenario("oof-14", "oof", doc(css, "\n".join(body)), expect=dict(flows=flows, margin=True, page_w=240, page_h=140, conserve=True, line_height=12))
+    # the last footnote is long and called on the last line of the document: it needs an extra page of its own
+    fw = words("nz", 60); flows["fnz"] = fw
+    ws = words("w", 6, wi); main += ws
+    body.append('<p>%s <span class=fn>%s</span></p>' % (" ".join(ws), " ".join(fw)))
+    scenario("oof-14", "oof", doc(css, "\n".join(body)), expect=dict(flows=flows, margin=True, page_w=240, page_h=140, conserve=True, line_height=12,
+                                                                     page_margins={"first": [22, 10, 10, 10], "left": [10, 10, 10, 10], "right": [10, 10, 10, 10]}))
 
     # 7: running element + string-set + fixed element + table header/footer repetition
     css = ("@page { size: 260px 170px; margin: 30px 10px 10px 10px; @top-left { content: element(hdr) } @top-right { content: string(chap); font-family: ahem; font-size: 8px } "
@@ -570,11 +575,11 @@ def gen_res():
         "s.svg": (SVG_SIMPLE, dict(mime="image/svg+xml", kind="svg")),
         "pal.png": (resfile("pattern.palette.png"), dict(mime="image/png", kind="image")),
     }
-    css = css0 + ".bg { background: url(p.png) repeat; min-height: 20px }\nul { list-style-image: url(p.gif); margin: 0; padding-left: 20px }\n.c::before { content: url(b.jpg) }\n"
+    css = css0 + ".bg { background: url(p.png) repeat; min-height: 20px }\n.bg2 { background: url(p.png), url(p.gif) #eee; min-height: 10px }\nul { list-style-image: url(p.gif); margin: 0; padding-left: 20px }\n.c::before { content: url(b.jpg) }\n"
     body = ('<p><img src="p.png" alt="alt1"> <img src="p.gif" alt="alt2"> <img src="b.jpg" alt="alt3"> <img src="s.svg" alt="alt4"> <img src="pal.png" alt="alt5"> <img src="p.png" alt="alt6"></p>'
-            '<div class=bg>x001</div><ul><li>x002</li><li>x003</li></ul><p class=c>x004</p><p><embed src="s.svg" type="image/svg+xml"> <object data="p.png" type="image/png">ob01</object></p>' + text)
+            '<div class=bg>x001</div><div class=bg2>x005</div><ul><li>x002</li><li>x003</li></ul><p class=c>x004</p><p><embed src="s.svg" type="image/svg+xml"> <object data="p.png" type="image/png">ob01</object></p>' + text)
     scenario("res-04", "res", doc(css, body), files=files,
-             expect=dict(exp0, sentinels=W + ["x001", "x002", "x003", "x004"],
+             expect=dict(exp0, sentinels=W + ["x001", "x002", "x003", "x004", "x005"],
                          fault_words={"p.png": ["alt1", "alt6", "ob01"], "p.gif": ["alt2"], "b.jpg": ["alt3"], "s.svg": ["alt4"], "pal.png": ["alt5"]}))
 
     # 05: SVG with external <use> and <image> chain
@@ -661,6 +666,10 @@ def gen_res():
     for i, par in enumerate(["xMid", "x", "", "none", "xMinYMax", "xMidYMid  slice", "defer xMidYMid", "slice"]):
         files["par%d.svg" % i] = ('<svg xmlns="http://www.w3.org/2000/svg" width="20" height="10" viewBox="0 0 10 10" preserveAspectRatio="%s"><rect width="5" height="5"/></svg>' % par, dict(mime="image/svg+xml", kind="svg"))
     pars = " ".join('<img src="par%d.svg" alt="pa%02d">' % (i, i) for i in range(8))
+    pars += ''.join(' <img src=\'%s\' alt="du%02d">' % (u, i) for i, u in enumerate([
+        'data:text/css;charset=",p{}', 'data:image/png;a="b;c=",AAAA', 'data:;base64', 'data:,', 'data:text/plain;charset=utf-8;base64,%%%', 'data:image/png;base64,A', 'data:image/svg+xml;utf8,<svg xmlns=%22http://www.w3.org/2000/svg%22 width=%221%22/>',
+        'data:text/css;charset="utf-8",.a%7B%7D', 'data:a/b;x', 'data:text/plain,%', 'data:text/plain,%4', 'data:text/plain,%zz']))
+    pars += '<font size=" ">s001</font><font size="\t">s002</font><font size="+">s003</font><font size="-">s004</font><td colspan=" ">s005</td><ol start=" "><li value=" ">s006</li></ol><hr size=" "><img width=" " height=" " src="par0.svg" alt="s007"><table cellspacing=" " border=" " width=" "><tr><td>s008</td></tr></table>'
     # declarations / rules that are invalid in an unusual way (must be dropped, never crash)
     oddcss = ('.q1 { font: 12px / } .q2 { font: 12px /; color: red } .q3 { font: / ahem } .q4 { string-set: a content(), ; bookmark-label: , } .q5 { margin: 1px 2px 3px 4px 5px; padding: / } '
               '@page :nth(of a) { margin: 1px } @page :nth( ) { margin: 1px } @page :nth(2n + ) { margin: 2px } @page x:first:first:blank { size: } .q6 { transform: rotate() scale(,) ; grid-area: / / / ; content: counter() counters(,) attr() } '
@@ -869,7 +878,7 @@ def gen_feat3():
              'p:contains("w00"), div:containsOwn(x), p:has(> span.a, + p), :is(p, div) > :where(span, a), p:matches(.a), a:link:not([href^="#"]), :lang(en), p:only-child, p:first-of-type:last-of-type, p:empty, :root > body { margin-right: 0 }\n'
              'a[href], a[href="x"], a[title~="t"], a[lang|="en"], a[href^="h" i], a[href$=".png" s], a[href*="x"], a[ href = x ], svg|a, *|p, |p, p#i.c.d:hover:focus, p::first-line, p::first-letter, p::marker, li::marker, p::after::before { padding-right: 0 }\n'
              'p + p ~ p > span span, p:nth-last-child(odd), p:nth-last-of-type(even), p:nth-child(+3n - 2), p:nth-child( 2 ), p:nth-child(n), p:nth-child(-n), p:nth-child(2n+1 of .a) { padding-bottom: 0 }\n'
-             '@page :first { margin: 1cm 2mm 3pt 4pc; @top-left-corner { content: "" } }\n@supports (display: grid) { .g { display: grid } }\n.e { width: 1e3px; height: 1E-1em; --v: { a: b }; transform: rotate(-1.5turn) translate(1px , -2%) }\n/* trailing comment */')
+             '@page :first { margin: 1cm 2mm 3pt 4pc; @top-left-corner { content: "" } }\n@supports (display: grid) { .g { display: grid } }\n.e { width: 1e3px; height: 1E-1em; --v: { a: b }; transform: rotate(-1.5turn) translate(1px , -2%) }\n/* trailing comment */\n.caf\u00e9 { font-family: \u00e9\u00e8, "\u00fc" } .\u65e5\u672c\u8a9e > .\u00e0b\u00e7 { content: "\u20ac\U0001f600" } #\u00f1 { --\u00e9: \u00e9 } .z\u00e9')
     W = words("w", 12)
     scenario("feat-07", "feat", doc(page_css(260, 160, 10) + BASE + ".ur { font-family: ur, ahem }\n", '<p class="abc u ur" title="t">%s</p><p class=e>%s</p>' % (" ".join(W[:6]), " ".join(W[6:])), '<link rel=stylesheet href="odd.css">'),
              files={"odd.css": (sheet, dict(mime="text/css", kind="css"))}, expect=dict(margin=True, page_w=260, page_h=160, sentinels=W, line_height=12))
@@ -1194,11 +1203,83 @@ def gen_rewrite():
     W = words("w", 60)
     svgt = '<svg xmlns="http://www.w3.org/2000/svg" width="120" height="24"><text y="10" font-family="ahem" font-size="6">ta01<tspan>ta02</tspan><tspan dx="2">ta03</tspan></text><text y="20" font-family="ahem" font-size="6" dx="1 2 3">tb01</text></svg>'
     body = (para(W[:8]) + '<p class=ell>%s</p><p class=ell2>%s</p>' % (" ".join(W[8:20]), " ".join(W[20:26])) + "<p>%s</p>" % svgt + '<p class=j>%s</p><p class=j2>%s</p><p class=j>%s</p>' % (" ".join(W[26:36]), " ".join(W[36:44]), " ".join(W[26:36]).replace("w0", "v0")) + para(W[44:]))
-    scenario("rew-01", "rew", doc(css, body, "<title>Rewrite</title>"), expect=dict(page_w=220, page_h=150, meta={"Title": "Rewrite"}, line_height=12))
+    scenario("rew-01", "rew", doc(css, body, "<title>Rewrite</title>"), expect=dict(page_w=220, page_h=150, meta={"Title": "Rewrite"}, line_height=12, group="rew"))
+
+
+def gen_firstletter():
+    # ::first-letter (inline and floated) and ::first-line, with probes (each pagination pass lays the boxes out again)
+    css = page_css(220, 130, 10) + BASE + "p::first-letter { color: red } p.fl::first-letter { float: left; font-size: 20px; line-height: 24px } p::first-line { letter-spacing: 0px }\n" + PROBE_CSS
+    body, flow = [], []
+    wi = 1
+    for i in range(9):
+        ws = words("w", 14, wi); wi += 14; flow += ws
+        body.append(para(ws, 'class=fl' if i % 3 == 1 else "", 6 if i in (2, 5) else None))
+    # the first letter is drawn on its own: words are compared after re-joining it (see first_letter in expect)
+    scenario("feat-10", "feat", doc(css, "\n".join(body)), expect=dict(flows={"main": flow}, margin=True, page_w=220, page_h=130, conserve=True, line_height=12, first_letter=True))
+
+
+def gen_wave3():
+    # multi-column content broken across pages, with probes on the continuation pages (columns resume from the
+    # checkpoint's resume stack), plus a multi-column block pushed as a whole to the next page after a footnote
+    css = page_css(260, 150, 10) + BASE + ".mc { columns: 2; column-gap: 10px } .mc p { margin: 0 0 6px 0 } .fn { float: footnote; font-size: 10px }\n::footnote-call { content: \"\" } ::footnote-marker { content: \"\" }\n.keep { break-inside: avoid }\n" + PROBE_CSS
+    body, flows, main = [], {}, []
+    wi = 1
+    ws = words("w", 10, wi); wi += 10; main += ws
+    body.append(para(ws))
+    mc = []
+    for i in range(10):
+        ws = words("w", 14, wi); wi += 14; main += ws
+        mc.append(para(ws, "", 7 if i in (3, 6, 8) else None))
+    body.append('<div class=mc>%s</div>' % "".join(mc))
+    ws = words("w", 40, wi); wi += 40; main += ws
+    fw = words("n", 8); flows["fn0"] = fw
+    body.append("<p>%s <span class=fn>%s</span> %s</p>" % (" ".join(ws[:30]), " ".join(fw), " ".join(ws[30:])))
+    mc2 = []
+    for i in range(3):
+        ws = words("w", 8, wi); wi += 8; main += ws
+        mc2.append(para(ws))
+    body.append('<div class="mc keep">%s</div>' % "".join(mc2))
+    ws = words("w", 12, wi); wi += 12; main += ws
+    body.append(para(ws, "", 5))
+    flows["main"] = main
+    scenario("oof-15", "oof", doc(css, "\n".join(body)), expect=dict(flows=flows, margin=True, page_w=260, page_h=150, conserve=True, line_height=12))
+
+    # margin boxes that manipulate counters: a "continued" header incrementing page, several boxes per side
+    css = ("@page { size: 220px 150px; margin: 24px 10px 18px 10px; @top-left { content: \"tl\" counter(page) } @top-right { counter-increment: page; content: \"nx\" counter(page) } @top-center { content: \"tc\" counter(page) \"of\" counter(pages) }"
+           " @bottom-left { counter-reset: foo 7; content: \"bl\" counter(foo) } @bottom-center { content: \"pg\" counter(page) \"of\" counter(pages); } @bottom-right { content: \"br\" counter(foo) counter(page) } }\n"
+           "@page { font-family: ahem; font-size: 6px; line-height: 6px }\n" + BASE)
+    body, flow = [], []
+    wi = 1
+    for i in range(5):
+        ws = words("w", 18, wi); wi += 18; flow += ws
+        body.append(para(ws))
+    scenario("pag-27", "pag", doc(css, "\n".join(body)), expect=dict(flows={"main": flow}, margin=True, page_w=220, page_h=150, conserve=True, line_height=12, margin_counters=True))
+
+    # same text / style / width as a justified paragraph of rew-01, NOT justified, in the same group (shared font configuration)
+    css = ("@page { size: 220px 150px; margin: 20px }\n" + BASE + ".j { width: 150px }\n")
+    W = words("w", 60)
+    body = '<p class=j>%s</p><p class=j>%s</p>' % (" ".join(W[26:36]), " ".join(W[36:44])) + para(W[:8])
+    scenario("rew-02", "rew", doc(css, body), expect=dict(page_w=220, page_h=150, line_height=12, group="rew"))
+
+    # an SVG served under a redirected URL that refers to itself by its original URL, and a redirected stylesheet
+    # whose relative references must be resolved against the redirected URL
+    self_svg = '<svg xmlns="http://www.w3.org/2000/svg" width="40" height="30"><rect width="10" height="10"/><image href="http://sim.test/res-18/loop.svg" width="20" height="15"/></svg>'
+    files = {
+        "loop.svg": (self_svg, dict(mime="image/svg+xml", kind="svg", redirect="http://sim.test/res-18/moved/loop.svg")),
+        "r.css": ('@import "sub.css";\np { color: #321 }\n.r { background: url(dot.png) }\n', dict(mime="text/css", kind="css", redirect="http://sim.test/res-18/moved/r.css")),
+        "moved/sub.css": ('.s { margin-left: 3px }\n', dict(mime="text/css", kind="css")),
+        "moved/dot.png": (png(2, 2, (9, 9, 9)), dict(mime="image/png", kind="image")),
+    }
+    css0 = page_css(260, 160, 10) + BASE + "img { width: 40px; height: 30px }\n"
+    W = words("w", 24)
+    scenario("res-18", "res", doc(css0, '<p class="r s"><img src="loop.svg" alt="alt1"></p>' + para(W[:12]) + para(W[12:]), '<link rel=stylesheet href="r.css">'), files=files,
+             expect=dict(margin=True, page_w=260, page_h=160, line_height=12, sentinels=W, cyclic=True, fault_words={"loop.svg": ["alt1"]}))
 
 
 def main():
     gen_pag()
+    gen_wave3()
+    gen_firstletter()
     gen_rewrite()
     gen_wave2()
     gen_ow()
